@@ -166,19 +166,21 @@ def main(argv=None) -> int:
         rc = 0
         nnew = 0
         for key, (what, rep) in list(new.items())[:25]:
-            # confirm from scratch before alarming
-            try:
-                again = mod.replay(rep)
-            except Exception as e:  # noqa: BLE001
-                raise HarnessError(f"replay of {key} crashed: {e!r}") from e
-            if not again or key not in {k for k, _ in again}:
-                raise HarnessError(f"violation {key} did not reproduce on replay: {what} / {again}")
             d = os.path.join(VERIF, "replays" if os.path.realpath(REPO) == "/repo" else ".scratch_replays", pid)
             os.makedirs(d, exist_ok=True)
             h = hashlib.sha1(key.encode()).hexdigest()[:12]
             path = os.path.join(d, f"{h}.json")
             with open(path, "w") as f:
                 json.dump({"property": pid, "key": key, "what": what, "replay": rep}, f, indent=1, default=str)
+            # confirm from scratch - in a FRESH process (process-wide state must not leak from one replay into the next) - before alarming
+            r = subprocess.run([sys.executable, "-X", "faulthandler", "-m", "mc.runner", pid, "--replay", path], capture_output=True, text=True, cwd=VERIF, timeout=3600)
+            again = [ln.split(" key=", 1)[1].split(" :: ", 1)[0] for ln in r.stdout.splitlines() if ln.startswith("REPLAY-FAILS ")]
+            if r.returncode not in (0, 1):
+                os.unlink(path)
+                raise HarnessError(f"replay of {key} crashed: {(r.stdout + r.stderr)[-300:]}")
+            if key not in again:
+                os.unlink(path)
+                raise HarnessError(f"violation {key} did not reproduce on replay: {what} / {again[:5]}")
             print(f"VIOLATION property={pid} replay={path}")
             print(f"  key={key} cases={vc.get(key, '?')}\n  what={what}")
             if "labels" in rep:
